@@ -91,6 +91,11 @@ def gen(rng):
     t, o = 100, top
     evs = []
     expected = top
+    if delay > 0 and top > 0 and rng.random() < 0.3:
+        # first coalescing window: a stale copy, the insufficient-state marker, the next offset
+        evs += [[t, "pub", top, 10, 1], [t, "insuff"], [t, "pub", top + 1, 10, 1]]
+        o = top + 1
+        t += rng.choice([5, 60, 200])
     for _ in range(rng.choice([1, 2, 3, 4, 6])):
         for _ in range(rng.choice([1, 1, 2, 3, 5, 8])):
             r = rng.random()
@@ -110,6 +115,12 @@ def gen(rng):
             else:
                 i = rng.randrange(len(subs))
                 evs.append([t, "check", i, o if rng.random() < 0.5 else o + rng.randint(1, 2)])
+        if delay > 0 and rng.random() < 0.2:
+            # sentinel sandwiched between a stale copy and the next offset inside one coalescing window
+            evs.append([t, "pub", max(1, o), 10, 1])
+            evs.append([t, "insuff"])
+            o += 1
+            evs.append([t, "pub", o, 10, 1])
         t += rng.choice([5, 20, 30, 50, 70, 200])
     end = t + 12 * max(delay, 10) + 100
     return {"nomedium": nomedium, "klp": klp, "sps": sps, "q": q, "qmax": qmax, "delay": delay, "subs": subs,
